@@ -577,6 +577,15 @@ pub fn gen_func_with(ch: &mut Chooser, max_ops: usize, max_vars: u32) -> FuncGen
     let nops = 2 + ch.choose("fn_nops", max_ops as u32 - 1) as usize;
     // choice density: how often an op is min/max/and/or
     let density = ch.choose("fn_density", 4); // 0: low .. 3: very high
+    // flavours: *call-heavy* functions are dominated by the operations with
+    // the longest machine code (libm calls, atan2, mod, compare; seeded change
+    // C10-k sizes JIT mappings by a per-clause bound); *immediate reuse* makes
+    // later immediates repeat the most recent one bit for bit, with `not` and
+    // other unary operations in between (seeded change C04-t caches which
+    // immediate sits in a scratch register)
+    let heavy = ch.odds("fn_call_heavy", 1, 8);
+    let reuse_imm = ch.odds("fn_reuse_imm", 1, 4);
+    let mut last_imm: Option<f32> = None;
     for _ in 0..nops {
         ch.span_begin();
         let pick = |ch: &mut Chooser, pool: &Vec<usize>| -> usize {
@@ -601,12 +610,16 @@ pub fn gen_func_with(ch: &mut Chooser, max_ops: usize, max_vars: u32) -> FuncGen
                 "fn_cop",
                 &[Bin::Min, Bin::Max, Bin::Min, Bin::Max, Bin::And, Bin::Or],
             );
-            let b = if ch.odds("fn_imm", 1, 4) {
-                dag.c(if ch.flag("fn_imm_special") {
+            let b = if ch.odds("fn_imm", 1, if reuse_imm { 2 } else { 4 }) {
+                let v = if reuse_imm && last_imm.is_some() && ch.odds("fn_imm_again", 2, 3) {
+                    last_imm.unwrap()
+                } else if ch.flag("fn_imm_special") {
                     *ch.pick("fn_imm_s", &SPECIAL)
                 } else {
                     ch.float_sym("fn_imm_v", 2.0, 40)
-                })
+                };
+                last_imm = Some(v);
+                dag.c(v)
             } else if ch.odds("fn_same_operand", 1, 10) {
                 // and(a, a), min(a, a), ...: the same-operand arms of the
                 // register allocator (seeded changes C04-u, C04-v)
@@ -619,6 +632,20 @@ pub fn gen_func_with(ch: &mut Chooser, max_ops: usize, max_vars: u32) -> FuncGen
             } else {
                 dag.b(op, a, b)
             }
+        } else if heavy && ch.odds("fn_heavy_op", 3, 4) {
+            if ch.odds("fn_heavy_unary", 3, 4) {
+                let op = *ch.pick(
+                    "fn_heavy_uop",
+                    &[Un::Sin, Un::Cos, Un::Tan, Un::Asin, Un::Acos, Un::Atan, Un::Exp, Un::Ln],
+                );
+                dag.u(op, a)
+            } else {
+                let op = *ch.pick("fn_heavy_bop", &[Bin::Atan2, Bin::Mod, Bin::Compare]);
+                let b = pick(ch, &pool);
+                dag.b(op, a, b)
+            }
+        } else if reuse_imm && ch.odds("fn_not", 1, 4) {
+            dag.u(Un::Not, a)
         } else if ch.odds("fn_unary", 2, 5) {
             let op = *ch.pick(
                 "fn_uop",
@@ -661,8 +688,14 @@ pub fn gen_func_with(ch: &mut Chooser, max_ops: usize, max_vars: u32) -> FuncGen
                     Bin::Mod,
                 ],
             );
-            let b = if ch.odds("fn_imm", 1, 4) {
-                dag.c(ch.float_sym("fn_imm_v", 2.0, 40))
+            let b = if ch.odds("fn_imm", 1, if reuse_imm { 2 } else { 4 }) {
+                let v = if reuse_imm && last_imm.is_some() && ch.odds("fn_imm_again", 2, 3) {
+                    last_imm.unwrap()
+                } else {
+                    ch.float_sym("fn_imm_v", 2.0, 40)
+                };
+                last_imm = Some(v);
+                dag.c(v)
             } else if ch.odds("fn_same_operand", 1, 10) {
                 a
             } else {
